@@ -152,6 +152,15 @@ def default_of(sc, body, t):
                 return "Default"
             if nm in ("ok", "is_ok", "is_err"):
                 return "Option"
+            if nm == "unwrap_or_else" and len(u[2]["args"]) == 2:
+                # the fallback is computed: name it when it is the value of another attribute of the same block (legacy files: SPACE-CONDITIONS <- SPACE-TYPE)
+                from .c08 import closure_return
+                r = closure_return(sc.prog, sc, sc.operand(u[2]["args"][1]), None)
+                if r is not None:
+                    keys = [strip(x[2][1])[1] for x in walk(r) if x[0] == "call" and "AttrMap" in x[1] and short_callee(x[1]) in ACCESSORS and len(x[2]) >= 2 and strip(x[2][1])[0] == "s"]
+                    if len(keys) == 1:
+                        return "attr:" + keys[0]
+                return nm
             if nm in ("unwrap_or_else", "map_or", "map_or_else", "or_else"):
                 return nm
     return "?"
@@ -304,6 +313,57 @@ def run(ctx):
             ctx.violation("c18.tbl", "c18.tbl|ElemType", "element kinds without code: %s" % sorted(set(evars) - got), ef.loc())
     except AnalysisError as e:
         ctx.note("ElemType table not analysed: %s" % e)
+    # tbl records: the struct declares its fields in the order of the file's columns (each field's doc comment describes that column), so field i is read from column i
+    for tname in ("Element", "Zone"):
+        adt = prog.adts.get("hulc::tbl::" + tname)
+        fns_ = [f for f in prog.fns.values() if f.path.startswith("hulc::<tbl::%s as " % tname) and f.path.endswith("FromStr>::from_str")]
+        if adt is None or len(fns_) != 1:
+            continue
+        ef = fns_[0]
+        esc = Scope(prog, ef)
+        lit = [esc.rvalue(st["rv"]) for b, i, st in ef.body.statements() if st["s"] == "assign" and st["rv"]["r"] == "agg" and st["rv"].get("adt", "").endswith("tbl::" + tname)]
+        if len(lit) != 1:
+            raise AnalysisError("tbl::%s::from_str: record literal not found" % tname)
+        decl = [f_["name"] for f_ in adt["variants"][0]["fields"]]
+        fl = dict(zip(lit[0][2], lit[0][3]))
+        cols = {}
+        for fname, v in fl.items():
+            idx = [strip(x[2][1]) for x in walk(strip(v)) if x[0] == "call" and short_callee(x[1]) == "index" and len(x[2]) == 2]
+            idx = [int(i_[1]) for i_ in idx if i_[0] == "k"]
+            if len(idx) == 1:
+                cols[fname] = idx[0]
+        if len(cols) < len(decl) - 1:
+            continue        # not the positional form (fields computed otherwise): nothing to compare
+        wrong = [(fn_, cols[fn_], decl.index(fn_)) for fn_ in decl if fn_ in cols and cols[fn_] != decl.index(fn_)]
+        key = "c18.tbl|columns|%s" % tname
+        if wrong:
+            ctx.violation("c18.tbl", key, "tbl::%s reads %s: the fields are declared (and documented) in column order, so a written value ends up in another field"
+                          % (tname, ", ".join("`%s` from column %d (declared at position %d)" % w for w in wrong)), ef.loc())
+        else:
+            ctx.ok("c18.tbl", key, "each of the %d fields of tbl::%s is read from the column of its declaration position" % (len(cols), tname), ef.loc())
+    # KyG solar-gain rows: the obstruction factor is H after all shading (column 6) over H without obstacles (column 3); columns as documented in the parser
+    fsh = []
+    for sc in ksc.all_scopes():
+        for b, i, st in sc.body.statements():
+            if st["s"] == "assign" and st["rv"]["r"] == "bin" and st["rv"]["op"] == "Div":
+                n = strip(sc.rvalue(st["rv"]))
+
+                def col(x):
+                    ii = [strip(y[2][1]) for y in walk(strip(x)) if y[0] == "call" and short_callee(y[1]) == "index" and len(y[2]) == 2]
+                    pp = [1 for y in walk(strip(x)) if y[0] == "call" and short_callee(y[1]) == "parse"]
+                    return int(ii[0][1]) if len(ii) == 1 and ii[0][0] == "k" and pp else None
+                a, b_ = col(n[2]), col(n[3])
+                if a is not None and b_ is not None:
+                    fsh.append((a, b_, st.get("ln")))
+    if len(fsh) == 1:
+        a, b_, ln = fsh[0]
+        if (a, b_) == (6, 3):
+            ctx.ok("c18.kyg", "c18.kyg|fshobst-columns", "F_sh;obst = column 6 (H after remote, facade and louvre shading) / column 3 (H without obstacles)", kp.loc(ln))
+        else:
+            ctx.violation("c18.kyg", "c18.kyg|fshobst-columns", "the obstruction factor of a window is column %d / column %d of its KyG row; the file gives H without obstacles in column 3 and H after "
+                          "all shading in column 6 (columns 4 and 5 are the intermediate values), so the factor HULC computed is not the one recovered" % (a, b_), kp.loc(ln))
+    else:
+        raise AnalysisError("kyg::parse: the quotient of two parsed columns that gives F_sh;obst was not found (%d candidates)" % len(fsh))
 
 
 def check_parents(ctx, prog, fn, variants, spec, rule="c18.parent"):
